@@ -403,6 +403,32 @@ def context_getattr_hook(I, v, name):
     return NotImplemented
 
 
+def str_split(I, recv, name, args):
+    """str.split / partition on opaque strings: pieces are unconstrained
+    strings (A-lib; the string helpers themselves are covered by B1)."""
+    if name in ('partition', 'rpartition'):
+        return (I.fresh('part', 'str'), I.fresh('sep', 'str'),
+                I.fresh('part', 'str'))
+    lst = I.fresh_list('split', 'str')
+    I.ex.assume(lst.len >= 1)
+    return lst
+
+
+def exc_fields(cls, args, kwargs):
+    """Instance attributes set by the __init__ of library exception classes
+    (A-lib): webob's WSGIHTTPException(detail, headers, comment,
+    body_template, json_formatter)."""
+    import webob.exc
+    f = dict(kwargs)
+    if issubclass(cls, webob.exc.WSGIHTTPException):
+        names = ('detail', 'headers', 'comment', 'body_template',
+                 'json_formatter')
+        for i, n in enumerate(names):
+            if n not in f:
+                f[n] = args[i] if i < len(args) else None
+    return f
+
+
 def base_registry():
     from oslo_utils import excutils
     reg = {
@@ -416,6 +442,8 @@ def base_registry():
         'function_hook': function_hook,
         'call_hook': call_hook,
         'is_foreign': is_sql,
+        'exc_fields': exc_fields,
+        'str_split': str_split,
     }
     reg['calls'][id(excutils.save_and_reraise_exception)] = \
         lambda I, a, k: SaveAndReraise()
